@@ -209,6 +209,9 @@ type c13Case struct {
 	Tables    []c13Table `json:"tables"`
 	Pre       []c13Pre   `json:"pre"`
 	Race      bool       `json:"race"` // run the -race build
+	// files NEXT to the targets whose names begin with a target's name ("out_5.gpkg.keep"): not GeoPackages, not the
+	// tool's; "every other path is untouched" (C13_cli_composition): they must be there, unchanged, after any run
+	Bystanders []string `json:"bystanders,omitempty"`
 }
 
 type c13Cell struct {
@@ -233,7 +236,11 @@ type c13Run struct {
 	Files  map[string][]c13OTable // relative (to the run dir) or absolute clean path -> tables; nil tables = unreadable
 	Errs   map[string]string
 	Others []string // non-GeoPackage leftovers (journals, ...)
+	// the bystander files of the case that are still there, with their content
+	Bystanders map[string]string
 }
+
+func c13BystanderText(name string) string { return "not a GeoPackage, not the tool's: " + name + "\n" }
 
 // ---- generators -----------------------------------------------------------------------------------------------
 
@@ -454,11 +461,55 @@ var c13Targets = []struct {
 	{"out.gpkg", nil}, {"./out.gpkg", nil}, {"sub/out.gpkg", []string{"sub"}}, {"sub/deep.er/nl.tiles.gpkg", []string{"sub/deep.er"}},
 	{"target", nil}, {"sub//x.tar.gz", []string{"sub"}}, {"sub/../o.gpkg", []string{"sub"}}, {"{ABS}/abs/out.gpkg", []string{"abs"}},
 	{"A-b_c.GPKG", nil}, {"d.d/noext", []string{"d.d"}}, {".hidden", nil}, {"sub/./t.gpkg", []string{"sub"}},
+	// F21: a percent sign is an ordinary character of a file name (the tool builds a fmt format from the path)
+	{"out%20dir/x.gpkg", []string{"out%20dir"}}, {"100%.gpkg", nil}, {"x%v.gpkg", nil}, {"sub/%d.g%kg", []string{"sub"}},
+	{"x.gpkg%", nil}, {"a%%b/t%", []string{"a%%b"}}, {"out%20dir/x%v.gpkg", []string{"out%20dir"}},
+	// so are the metacharacters of shell / filepath.Glob patterns
+	{"export[v2]/snapped.gpkg", []string{"export[v2]"}}, {"st*r/x*.gpkg", []string{"st*r"}}, {"b\\s/x\\y.gpkg", []string{"b\\s"}},
+	{"br{a,b}/x{1,2}.gpkg", []string{"br{a,b}"}}, {"t[1].[g]pkg", nil},
 }
 
-// genC13Target: a random target over the safe alphabet: stems that end in the letters of their own extension
-// ("backup.gpkg", "bgt.pkg.gpkg"), several dots, no extension, a trailing dot, upper case.
-func genC13Target(r *rand.Rand) (string, []string) {
+// characters with a meaning to fmt (F21) or to shell / filepath.Glob patterns; ordinary in a file name on Linux.
+// NOT among them: '?'.  go-sqlite3 reads a '?' in the file name as the start of the DSN parameters, so the UNCHANGED tool
+// writes `-t 'q?d/x.gpkg'` to a file named "q" (shown on the real binary); such names are outside what the harness generates.
+var c13Percent = []string{"%", "%v", "%d", "%20", "%%", "%s", "100%"}
+var c13Glob = []string{"[v2]", "*", "\\", "{a,b}", "[1]", "[", "]", "[a-c]"}
+
+// c13PathShape: where a target path carries a percent sign / a glob metacharacter (buckets of the evidence)
+func c13PathShape(target string) []string {
+	target = strings.ReplaceAll(target, "{ABS}", "")
+	i := strings.LastIndex(target, "/")
+	dir, file := target[:i+1], target[i+1:]
+	ext := ""
+	if j := strings.LastIndex(file, "."); j >= 0 {
+		ext = file[j:]
+	}
+	stem := file[:len(file)-len(ext)]
+	var out []string
+	for _, part := range []struct{ where, s string }{{"directory", dir}, {"stem", stem}, {"extension", ext}} {
+		if strings.Contains(part.s, "%") {
+			out = append(out, "target path: '%' in the "+part.where)
+		}
+		if strings.ContainsAny(part.s, "[]*\\{}") {
+			out = append(out, "target path: glob metacharacter in the "+part.where)
+		}
+	}
+	if strings.HasSuffix(target, "%") {
+		out = append(out, "target path: '%' as the last character")
+	}
+	if strings.Contains(target, "%v") {
+		out = append(out, "target path: contains \"%v\"")
+	}
+	if len(out) == 0 {
+		out = append(out, "target path: plain (no '%', no glob metacharacter)")
+	}
+	return out
+}
+
+// genC13Target: a random target: stems that end in the letters of their own extension ("backup.gpkg", "bgt.pkg.gpkg"),
+// several dots, no extension, a trailing dot, upper case.  special: "" = over the plain alphabet; "percent" / "glob" = at
+// least one token of c13Percent / c13Glob in the directory, the stem or the extension (often in several of them).
+func genC13Target(r *rand.Rand, special string) (string, []string) {
 	dirs := []struct {
 		d  string
 		mk []string
@@ -471,7 +522,46 @@ func genC13Target(r *rand.Rand) (string, []string) {
 		stem = append(stem, alpha[r.Intn(len(alpha))])
 	}
 	ext := []string{".gpkg", ".gpkg", ".gpkg", "", ".pkg", ".g", ".GPKG", ".", ".sqlite"}[r.Intn(9)]
-	return d.d + string(stem) + ext, d.mk
+	if special == "" {
+		return d.d + string(stem) + ext, d.mk
+	}
+	toks := c13Percent
+	if special == "glob" {
+		toks = c13Glob
+	}
+	tok := func() string {
+		if r.Intn(6) == 0 { // now and then one of the other family as well
+			all := append(append([]string{}, c13Percent...), c13Glob...)
+			return all[r.Intn(len(all))]
+		}
+		return toks[r.Intn(len(toks))]
+	}
+	where := r.Intn(7) + 1 // bit 0: directory, bit 1: stem, bit 2: extension
+	dir, mk, st := d.d, d.mk, string(stem)
+	if where&1 != 0 {
+		name := []string{"p", "out", "", "v1."}[r.Intn(4)] + tok() + []string{"", "c", "dir", ".d"}[r.Intn(4)]
+		if name == "." || name == ".." {
+			name = "d" + name
+		}
+		base := strings.TrimSuffix(strings.TrimPrefix(d.d, "{ABS}/"), "/")
+		if base == "." {
+			base = ""
+		}
+		dir = d.d + name + "/"
+		mk = []string{filepath.Join(base, name)}
+	}
+	if where&2 != 0 {
+		for j := 1 + r.Intn(2); j > 0; j-- {
+			pos := r.Intn(len(st) + 1)
+			st = st[:pos] + tok() + st[pos:]
+		}
+	}
+	if where&4 != 0 {
+		e := []string{"g", "gpkg", "", "pk"}[r.Intn(4)]
+		pos := r.Intn(len(e) + 1)
+		ext = "." + e[:pos] + tok() + e[pos:]
+	}
+	return dir + st + ext, mk
 }
 
 // c13WideAttrs > 0: genC13Table makes that many attribute columns (set only while a "wide bulk" case is generated)
@@ -500,7 +590,11 @@ func genC13Case(r *rand.Rand, id int, class string) c13Case {
 	tg := c13Targets[r.Intn(len(c13Targets))]
 	k.Target, k.Mkdirs = tg.arg, tg.mkdirs
 	if r.Intn(2) == 0 {
-		k.Target, k.Mkdirs = genC13Target(r)
+		k.Target, k.Mkdirs = genC13Target(r, []string{"", "", "percent", "glob"}[r.Intn(4)])
+	}
+	if (class == "pre-existing + overwrite" || class == "pre-existing, no overwrite") && r.Intn(2) == 0 {
+		// on purpose where an old target file is in the way: nothing of it may survive -overwrite, whatever its name
+		k.Target, k.Mkdirs = genC13Target(r, []string{"glob", "glob", "percent"}[r.Intn(3)])
 	}
 	k.Keep, k.Ignore, k.Reverse, k.Aliases = r.Intn(2) == 0, r.Intn(2) == 0, r.Intn(2) == 0, r.Intn(2) == 0
 	if r.Intn(3) > 0 {
@@ -608,6 +702,9 @@ func genC13Case(r *rand.Rand, id int, class string) c13Case {
 				p.Calls = append(p.Calls, c12Call{Table: spec.Name, Feats: genStream(r, spec, 1+r.Intn(6), 0, &last, 0)})
 			}
 			k.Pre = append(k.Pre, p)
+			if r.Intn(2) == 0 {
+				k.Bystanders = append(k.Bystanders, p.Path+[]string{".keep", "-notes.txt", "x", ".bak"}[r.Intn(4)])
+			}
 		}
 	}
 	return k
@@ -944,6 +1041,11 @@ func runC13Case(scratch, bin, binRace string, k c13Case) (run c13Run, err error)
 			return run, fmt.Errorf("creating the pre-existing file %s: %w", p.Path, err)
 		}
 	}
+	for _, b := range k.Bystanders {
+		if err = os.WriteFile(resolvePath(rundir, b), []byte(c13BystanderText(b)), 0o644); err != nil {
+			return run, fmt.Errorf("creating the bystander file %s: %w", b, err)
+		}
+	}
 	flag := func(long, short string) string {
 		if k.Aliases {
 			return "-" + short
@@ -1024,6 +1126,16 @@ func runC13Case(scratch, bin, binRace string, k c13Case) (run c13Run, err error)
 			f.Close()
 		}
 		if !strings.HasPrefix(string(hdr[:]), "SQLite format 3") {
+			for _, b := range k.Bystanders {
+				if resolvePath(rundir, b) == p {
+					all, _ := os.ReadFile(p)
+					if run.Bystanders == nil {
+						run.Bystanders = map[string]string{}
+					}
+					run.Bystanders[b] = string(all)
+					return nil
+				}
+			}
 			run.Others = append(run.Others, name)
 			return nil
 		}
@@ -1115,6 +1227,13 @@ func c13Oracle(k c13Case, run c13Run, exp *c13Expect, rundir string) []c12Proble
 	preByPath := map[string]c13Pre{}
 	for _, p := range k.Pre {
 		preByPath[resolve(p.Path)] = p
+	}
+	for _, b := range k.Bystanders {
+		if got, ok := run.Bystanders[b]; !ok {
+			bad("a file that is not a target was removed by the run: "+b, sortedFileNames(run.Files), b)
+		} else if got != c13BystanderText(b) {
+			bad("a file that is not a target was changed by the run: "+b, got, c13BystanderText(b))
+		}
 	}
 	fails := !k.TmsOK || k.NoSource || (exp != nil && exp.Panics)
 	if !fails && !k.Overwrite {
@@ -1394,8 +1513,10 @@ func c13CoqCase(k c13Case, run c13Run, exp *c13Expect, rundir string) string {
 		hc.CoqList(pres), hc.CoqBool(run.Exit == 0), hc.CoqList(files))
 }
 
-// goInject: injectSuffixIntoPath + Sprintf as main.go writes them, with Go's package path
+// goInject: injectSuffixIntoPath + Sprintf as main.go writes them (since F21 with the percent signs doubled first), with
+// Go's packages strings, path and fmt
 func goInject(p string, id int) string {
+	p = strings.ReplaceAll(p, "%", "%%")
 	dir, file := path.Split(p)
 	ext := path.Ext(file)
 	name := file[:len(file)-len(ext)]
@@ -1404,10 +1525,36 @@ func goInject(p string, id int) string {
 
 func genPath(r *rand.Rand) string {
 	alpha := []string{"a", "b", "Z", "0", "9", "_", "-", ".", ".", "/", "/", "ab", "x.y", "..", "."}
+	if r.Intn(2) == 0 {
+		alpha = append(alpha, "%", "%", "%v", "%%", "%20", "%d", "[v2]", "*", "\\", "{a,b}", "?")
+	}
 	n := 1 + r.Intn(9)
 	var b strings.Builder
 	for i := 0; i < n; i++ {
 		b.WriteString(alpha[r.Intn(len(alpha))])
+	}
+	return b.String()
+}
+
+// genFormat: a format for fmt.Sprintf(format, id) over plain characters, '%', "%%", "%v" and verbs that do not exist; no
+// flags, widths or other valid verbs ('.', digits, 'd', 'x', ... after a '%' would make Go print the argument another way)
+func genFormat(r *rand.Rand) string {
+	alpha := []string{"a", "_", "/", "v", "k", "%", "%%", "%%", "%v", "%v", "%_", "%/", "%k", "ab", "_%v"}
+	n := r.Intn(8)
+	one := -1
+	if r.Intn(2) == 0 {
+		// what injectSuffixIntoPath produces: plain characters and doubled percent signs around ONE %v
+		alpha = []string{"a", "_", "/", "v", "k", "%%", "%%", "%%v", "ab", "%%20", "."}
+		one = r.Intn(n + 1)
+	}
+	var b strings.Builder
+	for i := 0; i <= n; i++ {
+		if i == one {
+			b.WriteString("%v")
+		}
+		if i < n {
+			b.WriteString(alpha[r.Intn(len(alpha))])
+		}
 	}
 	return b.String()
 }
@@ -1418,12 +1565,14 @@ func runC13(c *hc.Ctx) error {
 	c.CorrInit("Texel.Corr.C13", "theories/Corr/C13.v", 12)
 	c.Sum.Rule = "random source GeoPackages (1-3 tables: polygon / multipolygon / point / linestring, 0-4 attribute columns INTEGER / REAL / TEXT / DATETIME / DATE / TIMESTAMP (date/times written to the source in the GeoPackage text forms 2023-05-17 and 2023-05-17T23:59:59.891Z: midnight, whole seconds, non-zero milliseconds, nanoseconds, before 1970, NULL), geometry column anywhere, 0-22 features; " +
 		"the source's gpkg_geometry_columns z / m prohibited (0) or optional (2), its recorded extent NULL / exact / loose (larger) / stale (elsewhere); polygons: rings of one point or of two distinct points (no area: WKB POLYGON((a,b,a)); also as one part of a multipolygon; a class of its own with -keeppointsandlines on), blobs of a few pixels of a requested level, sub-pixel (collapse), dumbbells whose corridor is below a coarse pixel (split), with holes, (partly) outside the grid) " +
-		"x {NetherlandsRDNewQuad, WebMercatorQuad} x 1-3 distinct ids, in a quarter of the cases one of them listed two or three times anywhere in the list ([6,5,6], [5,5], [4,7,7,7]) x page size {default, 1..7} x keep/ignore-outside/reverse flags (long names or aliases) x target paths (12 fixed shapes + random stems over [abgkp.-_09GP] with extensions {.gpkg,'',.pkg,.g,.GPKG,'.',.sqlite}) " +
+		"x {NetherlandsRDNewQuad, WebMercatorQuad} x 1-3 distinct ids, in a quarter of the cases one of them listed two or three times anywhere in the list ([6,5,6], [5,5], [4,7,7,7]) x page size {default, 1..7} x keep/ignore-outside/reverse flags (long names or aliases) x target paths (24 fixed shapes + random stems over [abgkp.-_09GP] with extensions {.gpkg,'',.pkg,.g,.GPKG,'.',.sqlite}; in a quarter of the random ones, and in half of the cases with a pre-existing target file, tokens with a meaning to fmt {%, %v, %d, %20, %%, %s, 100%} or to glob patterns {[v2], *, \\, {a,b}, [1], [, ], [a-c]} in the directory, the stem and / or the extension) " +
 		"(relative, ./, nested, dots in directories, several dots, no extension, hidden file, unclean a//b and a/../b, absolute) x " +
 		"{no pre-existing files, overwrite on/off | pre-existing files with other content + overwrite | pre-existing + no overwrite (fails) | invalid tile matrix set or ids | missing source}; " +
-		"a hazard class (4 ids, page size 1, 3 attribute values, 150+ polygons, -race build); PathCases: random strings over [a-zA-Z0-9_.-/] incl. '.', '..', '//'. " +
+		"in half of the cases with pre-existing target files a bystander file whose name extends a target's name (out_5.gpkg.keep); " +
+		"a hazard class (4 ids, page size 1, 3 attribute values, 150+ polygons, -race build); PathCases: random strings over [a-zA-Z0-9_.-/] incl. '.', '..', '//', half of them also with %, %v, %%, %20, %d, [v2], *, \\, {a,b}, ?; " +
+		"FmtCases: fmt.Sprintf(format, id) on random formats over plain characters, %, %%, %v and non-existent verbs. " +
 		"distinct = distinct (class, tms, ids, flags, target shape, table kinds); non-trivial = at least one polygon feature whose result differs between ids or is dropped/split"
-	c.Sum.Oracle = "exit status; exactly one GeoPackage per DISTINCT requested id (an id listed more than once counts once: exit 0, every file complete) at the path with _<id> inserted before the extension and no other new file; per file the source's tables in order; " +
+	c.Sum.Oracle = "exit status; exactly one GeoPackage per DISTINCT requested id (an id listed more than once counts once: exit 0, every file complete) at the path with _<id> inserted before the extension (computed by the harness from the -t argument with strings.LastIndex and filepath.Clean: neither package path nor fmt) and no other new file; a bystander file next to a target is still there, unchanged, after any run; per file the source's tables in order; " +
 		"polygon / multipolygon tables: per source feature in source order the attributes (date/time cells read raw from the target and compared with the source value as INSTANTS, to the nanosecond: the unchanged tool already rewrites their text layout) and EXACTLY the geometry snap.SnapPolygon returns for that id under the given flags " +
 		"(one polygon, or a multipolygon when several; multipolygon parts merged in part order; omitted when nothing is returned), other tables row-for-row copies; " +
 		"rtree entries = non-empty geometries; recorded extent of every table = bounding box of the geometries written to it (NULL if none), whatever the source records; a table whose source z / m is 'optional' is processed like any other; with -overwrite no table or row of an earlier file survives; invalid tile matrix set / ids or a missing source: non-zero exit, no file created, removed or changed; " +
@@ -1431,11 +1580,11 @@ func runC13(c *hc.Ctx) error {
 	c.Sum.Partial = "urfave/cli, the file system, package path / fmt.Sprintf, SQLite and the GeoPackage library are modelled, not verified; the Snap and Pipe models enter as parameters (their theorems are C01-C11)"
 	c.Sum.TrustedBase = []string{
 		"the library calls made by the harness (snap.SnapPolygon, tms20.LoadEmbeddedTileMatrixSet) are the oracle function of the composition; the fan-out rule is re-implemented in the harness",
-		"modelled: urfave/cli flag parsing, os.Remove / gpkg.Open on a finite-map file system, path.Split/Ext/Join/Clean and fmt.Sprintf with one %v (PathCase correspondence against Go's package path)",
+		"modelled: urfave/cli flag parsing, os.Remove / gpkg.Open on a finite-map file system, strings.ReplaceAll, path.Split/Ext/Join/Clean and fmt.Sprintf with %% and one %v (PathCase / FmtCase correspondence against Go's packages strings, path and fmt)",
 		"modelled: SQLite, go-sqlite3, the GeoPackage library, the verif SpatiaLite stand-in (as C12)",
 		"geometries are compared after one encode/decode through the GeoPackage binary codec (exact on float64)",
 	}
-	c.Sum.Assumptions = []string{"target paths over a safe alphabet (no '%')", "the tile matrix ids may be listed with repetitions: the request is the set of distinct ids", "date/time attributes are ISO 8601 texts in UTC in columns declared DATE / DATETIME / TIMESTAMP (the types the SQLite driver converts); equality of such a cell = equality of the instant", "page size > 0", "attribute values match the column affinity; column names need no quoting"}
+	c.Sum.Assumptions = []string{"target paths without '?' (go-sqlite3 reads a '?' in the file name as the start of the DSN parameters: the unchanged tool writes -t 'q?d/x.gpkg' to a file named q); any other printable character, '%' and glob metacharacters included", "the tile matrix ids may be listed with repetitions: the request is the set of distinct ids", "date/time attributes are ISO 8601 texts in UTC in columns declared DATE / DATETIME / TIMESTAMP (the types the SQLite driver converts); equality of such a cell = equality of the instant", "page size > 0", "attribute values match the column affinity; column names need no quoting"}
 
 	scratch, err := os.MkdirTemp("", "verif-c13-")
 	if err != nil {
@@ -1539,6 +1688,15 @@ func runC13(c *hc.Ctx) error {
 		c.Sum.Evaluations++
 		c.Count("class: " + k.Class)
 		c.Count("tms: " + k.Tms)
+		for _, b := range c13PathShape(k.Target) {
+			c.Count(b)
+			if len(k.Pre) > 0 && k.Overwrite {
+				c.Count("pre-existing target + overwrite, " + b)
+			}
+		}
+		if len(k.Bystanders) > 0 {
+			c.Count("cases with a bystander file next to a target")
+		}
 		if nd := len(distinctIds(k.Ids)); nd < len(k.Ids) {
 			c.Count(fmt.Sprintf("id list with repetitions: %d entries, %d distinct ids", len(k.Ids), nd))
 		}
@@ -1633,7 +1791,24 @@ func runC13(c *hc.Ctx) error {
 		id := c.Rng.Intn(40) - 3
 		c.Sum.Evaluations++
 		c.Count("path cases")
+		if strings.Contains(p, "%") {
+			c.Count("path cases with '%'")
+		}
 		c.Case(fmt.Sprintf("PathCase %s %s %s", coqString(p), hc.CoqZ(int64(id)), coqString(goInject(p, id))), map[string]any{"path": p, "id": id, "go": goInject(p, id)})
+	}
+	// fmt.Sprintf against its model: where the model gives a text, Go's is the same; where it says "outside", Go complains
+	for i := 0; i < c.N(300, 3000); i++ {
+		f := genFormat(c.Rng)
+		id := c.Rng.Intn(40) - 3
+		got := fmt.Sprintf(f, id) //nolint:govet // the point is a format that is not a constant
+		marker := strings.Contains(got, "%!")
+		c.Sum.Evaluations++
+		if marker {
+			c.Count("format cases Go complains about (%!..): outside the model")
+		} else {
+			c.Count("format cases Go prints without complaint: inside the model")
+		}
+		c.Case(fmt.Sprintf("FmtCase %s %s %s %s", coqString(f), hc.CoqZ(int64(id)), coqString(got), hc.CoqBool(marker)), map[string]any{"format": f, "id": id, "go": got})
 	}
 	return nil
 }
